@@ -1,9 +1,87 @@
 /-
   C06 — KV cache exposes exactly the causal history of each sequence.
+
+  Property theorems over the model of kvcache.Causal (Model/Causal.lean) and the location-free
+  specification (Spec/KV.lean), connected by the abstraction `abs` (Proofs/Causal.lean).
 -/
 import OllamaVerif.Proofs.Causal
 
 namespace OllamaVerif.C06
 open OllamaVerif OllamaVerif.KV OllamaVerif.Causal
+
+/-- **CopyPrefix commutes with the abstraction** (every cache, any arguments): afterwards the
+    abstract state is the spec's `copyPrefix` of the abstract state before. -/
+theorem copyPrefix_abs (c : Cache) (src dst : Nat) (len : Int) :
+    abs (Causal.copyPrefix c src dst len) = KV.copyPrefix (abs c) src dst len := by
+  simp only [abs, Causal.copyPrefix, KV.copyPrefix, List.zip_map_left, List.filterMap_map,
+    List.filterMap_filterMap]
+  apply filterMap_congr'
+  intro x _
+  obtain ⟨cell, row⟩ := x
+  simpa using entryOf_cpCell src dst len (cell, row)
+
+/-- **Remove commutes with the abstraction** whenever it reports success: the spec accepts the same
+    removal and yields exactly the abstract state after the call (ranges removed, later positions and
+    the data's shift moved by `begin − end`, `MaxInt32` meaning "to the end"). -/
+theorem remove_abs (c : Cache) (seq : Nat) (b e : Int) (hlen : c.cells.length = c.rows.length)
+    (hsz : c.cells.length ≤ maxInt) (hl : c.hasLayers = true)
+    (hok : (Causal.remove c seq b e).2 = .ok) :
+    KV.remove (abs c) seq b e = some (abs (Causal.remove c seq b e).1) := by
+  unfold Causal.remove at hok ⊢
+  simp only at hok ⊢
+  cases hr : (removeCells seq b e (rmOffset b e) c.cells).2 with
+  | true => simp [hr] at hok
+  | false =>
+    have hcells := removeCells_ok seq b e (rmOffset b e) c.cells hr
+    have hany : (abs c).any (mustRefuse seq b e) = false := by
+      rw [abs, any_refuse_abs seq b e c.cells c.rows hlen, ← removeCells_flag seq b e (rmOffset b e), hr]
+    simp only [KV.remove, hany, Bool.false_eq_true, if_false, Option.some.injEq]
+    simp only [hr, Bool.false_eq_true, if_false] at hok
+    simp only [hcells] at hok ⊢
+    by_cases hnew : rangeOf (hasSeq seq) (c.cells.map (rmCell seq b e (rmOffset b e))) = Range.new
+    · -- nothing of `seq` is left: no row needs a shift
+      simp only [hnew, if_true, abs]
+      rw [zip_noShift, List.filterMap_map, List.filterMap_filterMap]
+      apply filterMap_congr'
+      intro x hx
+      have hno := rangeOf_new _ _ (by rw [List.length_map]; exact hsz) hnew
+      obtain ⟨k, hk, rfl⟩ := List.getElem_of_mem hx
+      have hk' : k < c.cells.length := by
+        have := hk; simp only [List.length_zip] at this; omega
+      have hk2 : k < (c.cells.map (rmCell seq b e (rmOffset b e))).length := by
+        rw [List.length_map]; exact hk'
+      have hcell := hno k hk2
+      simp only [List.getElem_map, hasSeq, decide_eq_false_iff_not] at hcell
+      simp only [List.getElem_zip, Function.comp]
+      generalize c.cells[k] = cell at hcell
+      generalize c.rows[k]'(by rw [← hlen]; exact hk') = row
+      obtain ⟨pos, seqs⟩ := cell
+      by_cases h0 : seqs = []
+      · subst h0; simp [entryOf, rmPair, rmCell]
+      · by_cases h1 : seq ∈ seqs
+        · by_cases h2 : b ≤ pos ∧ pos < e
+          · simp [entryOf, rmPair, rmCell, rmEntry, h0, h1, h2, dropSeq]
+          · by_cases h3 : pos ≥ e
+            · simp [rmCell, h1, h2, h3] at hcell
+            · simp [entryOf, rmPair, rmCell, rmEntry, h0, h1, h2, h3]
+        · simp [entryOf, rmPair, rmCell, rmEntry, h0, h1]
+    · simp only [hnew, if_false] at hok ⊢
+      by_cases he : e = maxInt32
+      · subst he
+        simp only [if_true, abs]
+        rw [zip_noShift, List.filterMap_map, List.filterMap_filterMap]
+        apply filterMap_congr'
+        intro x _
+        simpa using (entryOf_rmPair_noshift_inf seq b x).symm
+      · simp only [he, if_false] at hok ⊢
+        cases hs : c.hasShift with
+        | false => simp [hs] at hok
+        | true =>
+          simp only [Bool.not_true, Bool.false_eq_true, if_false, hl, if_true, abs]
+          rw [zip_shiftRows, List.filterMap_map,
+            List.filterMap_filterMap]
+          apply filterMap_congr'
+          intro x _
+          simpa using (entryOf_rmPair_shift seq b e he x).symm
 
 end OllamaVerif.C06
